@@ -80,6 +80,11 @@ def fixIns (c : Cfg) (i : Ins) (pos : Nat) (blockSize : Int) (from_ tramp : BitV
         | .ok r => .ok (r ++ tl)
       else .ok i.bytes                                                 -- :140
 
+/-- fix_addr_amd64.go:84–:89: the instruction at the cut position exists and is not `RET` -/
+def cutFlag : List Ins → Bool
+  | j :: _ => !j.isRet                                               -- :89
+  | [] => false                                                      -- ParseIns → nil (or panic at :86, see `Tail.bad`)
+
 /-- fix_addr_amd64.go:50 `fixBlock`; `pos` = position of the head of the list, `acc` = `fixedBlock`. -/
 def fixBlock (c : Cfg) (from_ tramp : BitVec 64) (least blockSize : Int) (tl : Tail) :
     List Ins → Nat → Bytes → Except String (Bytes × Nat)
@@ -94,10 +99,7 @@ def fixBlock (c : Cfg) (from_ tramp : BitVec 64) (least blockSize : Int) (tl : T
     | .ok o =>
       let acc' := acc ++ o
       let pos' := pos + i.len                                          -- :80
-      let cut : Bool := match rest with
-        | j :: _ => !j.isRet                                           -- :89
-        | [] => false                                                  -- ParseIns → nil (or panic below)
-      if 0 < least ∧ least ≤ (pos' : Int) ∧ cut = true then .ok (acc', pos')   -- :83–:90
+      if 0 < least ∧ least ≤ (pos' : Int) ∧ cutFlag rest = true then .ok (acc', pos')   -- :83–:90
       else fixBlock c from_ tramp least blockSize tl rest pos' acc'
 
 /-- fix_addr_amd64.go:146 `checkJumpBetween` -/
